@@ -11,7 +11,8 @@
            IsOpen/Open/Flush (v lb rt)     v: IsOpen 1/0, Open/Flush 1 when the error is nil
    (1 cls n)       NewDefaultTransport over: cls 0 object with ReadableLen() = n; 1 object with
                    Len() = n only; 2 plain ReadWriter; 3 *bytes.Buffer holding n bytes;
-                   4 a buffer transport (over n bytes) passed in again
+                   4 a buffer transport (over n bytes) passed in again; 5 / 6 objects that have the whole
+                   TTransport method set themselves (RemainingBytes() = 3), with ReadableLen() = n / without
        output (remaining isBufferTransport forwardsOK closeNil)
    (2 steps)       registry; every case starts (and ends) with all three slots nil
        step (0 slot fid) Register<slot>(callback fid), fid = -1: Register<slot>(nil)
@@ -152,9 +153,9 @@ Definition check_hist (init : bytes) (hl : list cval) (out : cval) : verdict :=
 
 (* ---------- default transport ---------- *)
 Definition check_default (cls n : Z) (out : cval) : verdict :=
-  if negb (in_signedb 64 n) || (cls <? 0) || (4 <? cls) || (((cls =? 3) || (cls =? 4)) && (n <? 0)) then bad_case else
+  if negb (in_signedb 64 n) || (cls <? 0) || (6 <? cls) || (((cls =? 3) || (cls =? 4)) && (n <? 0)) then bad_case else
   let o : rw :=
-    if cls =? 0 then RWReadable n
+    if (cls =? 0) || (cls =? 5) then RWReadable n
     else if cls =? 3 then RWBuffer (repeat 0%N (Z.to_nat n))
     else RWOther in
   let t := new_default_transport o in
@@ -165,7 +166,7 @@ Definition check_default (cls n : Z) (out : cval) : verdict :=
     | L [I r; I bt; I fw; I cl] =>
         (* readable length when a positive one is exposed, else unknown = max uint64;
            a *bytes.Buffer becomes a buffer transport: the unread length, zero included *)
-        (r =? (if cls =? 0 then (if 0 <? n then n else 18446744073709551615)
+        (r =? (if (cls =? 0) || (cls =? 5) then (if 0 <? n then n else 18446744073709551615)
                else if cls =? 3 then n else 18446744073709551615))
         && (bt =? (if cls =? 3 then 1 else 0)) && (fw =? 1) && (cl =? 1)
     | _ => false
